@@ -272,14 +272,14 @@ Section Cache.
   Definition cop_ok (o : cop V) : Prop :=
     match o with
     | COp (DesSet _ _) | COp (DesDel _) | COp DesDelAll | COp (DesSetMany _) => True
-    | COp _ | ExtSet _ _ | ExtDel _ => False
+    | COp _ | ExtSet _ _ | ExtDel _ | CUpdB _ _ | CDelB _ _ | CAllB _ _ _ => False
     | _ => True
     end.
   Definition crun (fixed : bool) (ops : list (cop V)) : cst := fold_left (fun c o => fst (cstep V veq fixed c o)) ops (cst0 V).
 
   Lemma cstep_ci fixed c o : cop_ok o -> CI c -> CI (fst (cstep V veq fixed c o)).
   Proof.
-    intros Ho HC. pose proof HC as [I ND C]. destruct o as [o| | | | | |]; cbn [cstep cop_ok] in *; try contradiction.
+    intros Ho HC. pose proof HC as [I ND C]. destruct o as [o| | | | | | | | |]; cbn [cstep cop_ok] in *; try contradiction.
     - destruct o; try contradiction; cbn [fst step c_t c_dp c_loaded]; constructor; cbn [c_t c_dp c_loaded]; auto.
       + apply des_set_inv; assumption.
       + intros L k'. unfold Coh. cbn [c_t c_dp]. rewrite (des_set_dp V veq) by assumption. apply (C L).
